@@ -393,3 +393,35 @@ def c07_cases():
     out.append(("U13-hierarchy-single", dict(hierarchy=1), hm, [["update_var", "c2/p1/opB/k", 3.0]]))
     out.append(("U14-hierarchy-array", dict(hierarchy=1), hm, [["update_var", "all/all/opB/k", [1.0, 2.0, 3.0, 4.0]]]))
     return out
+
+
+def c08_cases(seed=0):
+    """(tag, features, model, inputs) — non-constant random inputs so that any misalignment is visible."""
+    import numpy as np
+    rng = np.random.default_rng(seed)
+    N = 20
+
+    def sig(n=N, cols=None):
+        a = np.round(rng.uniform(-1, 1, size=(n,) if cols is None else (n, cols)), 3)
+        return a.tolist()
+    out = []
+    integ = op_li("op", x="x", ins=("u",), tau=4.0, x0=0.0, in_defaults={"u": 0.0})
+    single = model([integ], {"p": dict(ops=["op"])})
+    out.append(("I1-single-1d", dict(), single, {"p/op/u": sig()}))
+    out.append(("I2-single-N1", dict(), single, {"p/op/u": sig(cols=1)}))
+    three = model([integ], {f"p{i}": dict(ops=["op"], over={"op/tau": 2.0 + i}) for i in range(3)},
+                  [edge("p0/op/x", "p1/op/u", 0.5)])
+    out.append(("I3-broadcast-1d-to-all", dict(), three, {"all/op/u": sig()}))
+    out.append(("I4-one-column-per-node", dict(vec_only=True), three, {"all/op/u": sig(cols=3)}))
+    out.append(("I5-single-node-of-three-plus-edge", dict(), three, {"p1/op/u": sig()}))
+    two_in = op_li("op2", x="x", ins=("u", "w"), tau=4.0, x0=0.1, in_defaults={"u": 0.0, "w": 0.0})
+    m2 = model([two_in], {"a": dict(ops=["op2"]), "b": dict(ops=["op2"], over={"op2/tau": 1.0})}, [edge("a/op2/x", "b/op2/w", 1.5)])
+    out.append(("I6-two-inputs-two-variables", dict(), m2, {"a/op2/u": sig(), "b/op2/w": sig()}))
+    out.append(("I7-two-inputs-same-variable", dict(), m2, {"b/op2/u": sig(), "all/op2/u": sig()}))
+    inner = model([integ], {"p1": dict(ops=["op"]), "p2": dict(ops=["op"], over={"op/tau": 1.0})}, [edge("p1/op/x", "p2/op/u", 1.0)])
+    import json
+    hm = dict(ops={}, nodes={}, edges=[edge("c1/p2/op/x", "c2/p1/op/u", 0.8)], circuits={"c1": inner, "c2": json.loads(json.dumps(inner))})
+    out.append(("I8-hierarchy-single", dict(hierarchy=1), hm, {"c2/p2/op/u": sig()}))
+    out.append(("I9-hierarchy-wildcard", dict(hierarchy=1), hm, {"all/p1/op/u": sig()}))
+    out.append(("I10-coarse-input-adaptive-grid", dict(coarse=True), single, {"p/op/u": sig(n=9)}))
+    return out
